@@ -25,6 +25,23 @@ def gen_random(cs, rnd, n):
             PC.add_ref(cs, c2, PL.sparse_rows(rnd, rnd.choice([3, 6, 12])), rnd)
 
 
+REGEX_STAGES = [["--filter=(match (default .g \"\") \"^a|b$\")"], ["--select=(match (default .g \"\") \"^[ab]\") =m1"], ["--select=(extract_regex_group (default .g \"\") \"(a)(.*)\" 2) =m2"],
+                ["--select=(match (stringify .k1) \"[0-9]+\") =m3"], ["--sort-by=(match (default .g \"\") \"b\")"], ["--select=(match (default .g \"x\") (default .g \"y\")) =m4"],
+                ["--group-by=(? (match (default .g \"\") \"^a\") \"A\" \"other\")"], ["--select=(match \"abc\" (concat \"^\" (default .g \"z\"))) =m5"], ["--unique"], ["--take=5"]]
+
+
+def gen_cache_twins(cs, rnd, n):
+    """The compiled-pattern cache is invisible: a pipeline whose stages match several patterns (constant and data driven) gives the same rows
+    with any --regular-expression-cache-size as with none."""
+    for i in range(n):
+        stages = [a for g in rnd.sample(REGEX_STAGES, rnd.choice([3, 4, 5])) for a in g]
+        rows = PL.rand_rows(rnd, rnd.choice([3, 8, 20]), few_keys=True)
+        data = hexs(PL.input_bytes(rows))
+        size = rnd.choice([1, 1, 2, 3])
+        cs.add({"kind": "rel", "rel": "same", "cfg": PL.mkcfg(), "input": [], "json": True,
+                "runs": [{"argv": stages + ["--regular-expression-cache-size=%d" % size], "stdin": data}, {"argv": stages, "stdin": data}]})
+
+
 def check(tier, seed, replay=None):
     chk = Check("C03", tier, seed)
     chk.rule = ("a case is one (configuration, input history) pair run through jawk::go with the options in a random order; distinct = distinct "
@@ -53,6 +70,7 @@ def check(tier, seed, replay=None):
                 nb += 1
         chk.notes["model_behaviours_replayed"] = nb
         gen_random(cs, rnd, 300 if quick else 20000)
+        gen_cache_twins(cs, rnd, 30 if quick else 1500)
     per, recs = PC.run_and_validate(chk, jvh, cs, "c03", nproc=2 if tier == "quick" else 12)
     for ri, rc in enumerate(cs.recipes):
         a = rc["runs"][0]["argv"]
